@@ -5,10 +5,20 @@ package main
 
 import (
 	"bufio"
+	"bytes"
+	"context"
 	"encoding/json"
 	"flag"
 	"fmt"
+	"io"
 	"os"
+	"runtime"
+	"time"
+
+	"github.com/mgtv-tech/redis-GunYu/config"
+	"github.com/mgtv-tech/redis-GunYu/syncer"
+	"verifh/fakeredis"
+	"verifh/rdbgen"
 
 	"github.com/mgtv-tech/redis-GunYu/pkg/filter"
 	"github.com/mgtv-tech/redis-GunYu/pkg/redis"
@@ -39,6 +49,7 @@ func main() {
 	nrand := flag.Int("nrand", 2000, "random keys")
 	maxLen := flag.Int("max-rand-len", 48, "max random key length")
 	ntags := flag.Int("ntags", 512, "slot tags to check (16384 = all)")
+	maxUnitKeys := flag.Int("max-unit-keys", 400, "TLC keys replayed as bidirectional replay units")
 	flag.Parse()
 	hx.QuietLogs()
 	tr, err := hx.NewTrace(*out)
@@ -87,6 +98,7 @@ func main() {
 		}
 	}
 	ncases := 0
+	var unitKeys [][]byte
 	if f, err := os.Open(*cases); err == nil {
 		sc := bufio.NewScanner(f)
 		sc.Buffer(make([]byte, 1<<20), 1<<24)
@@ -101,6 +113,9 @@ func main() {
 			}
 			observe(key, c.Slot)
 			ncases++
+			if len(key) > 0 && ncases%7 == int(*seed%7) {
+				unitKeys = append(unitKeys, key)
+			}
 		}
 		f.Close()
 	} else {
@@ -131,9 +146,190 @@ func main() {
 		emit(map[string]interface{}{"site": "SlotTag", "k": ints([]byte(tag)), "slot": s})
 		ntag++
 	}
+	// replay units of the bidirectional replay (incremental and snapshot path, with and without hash-tag stripping): the slot a
+	// unit is bound to - read off the slot tag of the marker key that leads its transaction - against the key the unit writes
+	nunits := 0
+	if len(unitKeys) > *maxUnitKeys {
+		unitKeys = unitKeys[:*maxUnitKeys]
+	}
+	for i := 0; i < *nrand/20; i++ {
+		n := 1 + r.Intn(24)
+		key := r.Bytes(n)
+		for j := 0; j < 1+r.Intn(3); j++ {
+			key[r.Intn(n)] = "{}"[r.Intn(2)]
+		}
+		unitKeys = append(unitKeys, key)
+	}
+	tagSlot := map[string]int{}
+	for sl := 0; sl < 16384; sl++ {
+		tagSlot[checkpoint.BisyncSlotTag(uint16(sl))] = sl
+	}
+	for _, path := range []string{"aof", "rdb", "rdb-striptag"} {
+		for _, u := range unitSlots(unitKeys, path, tagSlot) {
+			emit(map[string]interface{}{"site": "UnitSlot", "k": ints(u.key), "slot": u.slot, "path": path})
+			nunits++
+		}
+	}
+	if nunits < len(unitKeys) {
+		hx.Fatal("only %d replay units observed for %d keys x 3 paths", nunits, len(unitKeys))
+	}
 	if err := tr.Close(); err != nil {
 		hx.Fatal("%v", err)
 	}
-	hx.WriteJSON(*statsPath, map[string]interface{}{"keys": nkeys, "tlc_cases": ncases, "random": *nrand, "tags": ntag, "observations": id, "samples": samples})
+	hx.WriteJSON(*statsPath, map[string]interface{}{"unit_slots": nunits, "keys": nkeys, "tlc_cases": ncases, "random": *nrand, "tags": ntag, "observations": id, "samples": samples})
 	fmt.Fprintf(os.Stderr, "slotdrv: %d keys, %d observations\n", nkeys, id)
+}
+
+type unitObs struct {
+	key  []byte
+	slot int
+}
+
+// unitSlots replays one single-key unit per key through the real bidirectional replay into a one-node cluster fake
+// (it owns every slot and answers CROSSSLOT by its own HASH_SLOT) and returns, for every transaction the fake received,
+// the business key and the slot the leading marker key's tag stands for.
+func unitSlots(keys [][]byte, path string, tagSlot map[string]int) []unitObs {
+	const runID = "cccccccccccccccccccccccccccccccccccccccc"
+	const cpName = "redis-gunyu-checkpoint-bisync:verifslot"
+	var out []unitObs
+	// a refused transaction ends the run: go on behind it
+	for start := 0; start < len(keys); {
+		cs, err := fakeredis.NewCluster(1)
+		if err != nil {
+			hx.Fatal("%v", err)
+		}
+		for _, nd := range cs.Nodes {
+			nd.KeepRaw = true
+			nd.RestoreDecoder = func(key []byte, payload []byte) (*fakeredis.Value, string) {
+				return &fakeredis.Value{Type: "string", Str: []byte("x")}, ""
+			}
+		}
+		rcfg := config.RedisConfig{Addresses: cs.Addrs(), Type: config.RedisTypeCluster, Otype: config.RedisTypeCluster, Version: "7.0.0"}
+		// what the command layer learns from CLUSTER NODES before it builds the output: one shard that owns every slot
+		rcfg.SetClusterShards([]*config.RedisClusterShard{{Slots: config.RedisSlots{Ranges: []config.RedisSlotRange{{Left: 0, Right: 16383}}},
+			Master: config.RedisNode{Address: cs.Addrs()[0]}}})
+		ro := syncer.NewRedisOutput(syncer.RedisOutputConfig{
+			InputName: "verif", CheckpointName: cpName, RunId: runID, BisyncEnabled: true, CanTransaction: true,
+			Redis:                      rcfg,
+			EnableResumeFromBreakPoint: true, TargetDb: -1, ReplaceHashTag: path == "rdb-striptag",
+			BatchCmdCount: 4, BatchTicker: time.Hour, BatchBufferSize: 1 << 30, KeepaliveTicker: time.Hour, UpdateCheckpointTicker: time.Hour,
+			ReplayMode: config.ReplayModeSync, Parallelism: 1, ReplayRdbParallel: 1, ReplayRdbEnableRestore: start%2 == 0, MaxProtoBulkLen: 512 << 20, KeyExists: "replace",
+			Stats: config.OutputStats{DisableLog: true},
+		})
+		part := keys[start:]
+		if path == "rdb-striptag" {
+			var p2 [][]byte
+			for _, k := range part {
+				if len(k) > 2 || (len(k) > 0 && k[0] != '{' && k[0] != '}') {
+					p2 = append(p2, k) // (a key that is nothing but one brace pair strips to the empty key)
+				}
+			}
+			part = p2
+		}
+		ctx, cancel := context.WithCancel(context.Background())
+		done := make(chan error, 1)
+		if path == "aof" {
+			var stream []byte
+			for i, k := range part {
+				stream = append(stream, hx.EncodeCmd([]byte("set"), k, []byte(fmt.Sprintf("v%d", start+i)))...)
+			}
+			feed := hx.NewFeedReader()
+			feed.Feed(stream)
+			go func() { done <- ro.Send(ctx, hx.NewChanReader(feed, true, runID, 1000, -1)) }()
+			// the source goes quiet only after every unit has arrived (or the replay has given up)
+			go func() {
+				dl := time.Now().Add(20 * time.Second)
+				for time.Now().Before(dl) {
+					n := 0
+					for _, e := range cs.RawMerged() {
+						if e.Name == "set" && e.InMulti && len(e.Args) > 0 && !checkpoint.IsBisyncMarkerKey(string(e.Args[0])) {
+							n++
+						}
+					}
+					if n >= len(part) || ctx.Err() != nil {
+						break
+					}
+					time.Sleep(2 * time.Millisecond)
+				}
+				time.Sleep(5 * time.Millisecond)
+				feed.CloseWith(io.EOF)
+			}()
+		} else {
+			var es []*rdbgen.Entry
+			seen := map[string]bool{}
+			for i, k := range part {
+				if seen[string(k)] {
+					continue
+				}
+				seen[string(k)] = true
+				es = append(es, &rdbgen.Entry{Key: k, Val: rdbgen.Val{Type: "string", Str: []byte(fmt.Sprintf("v%d", start+i))}, Enc: "raw"})
+			}
+			data, err := rdbgen.Build(es, 10, false)
+			if err != nil {
+				hx.Fatal("rdbgen: %v", err)
+			}
+			go func() { done <- ro.Send(ctx, hx.NewChanReader(bytes.NewReader(data), false, runID, 1000, int64(len(data)))) }()
+		}
+		var sendErr error
+		select {
+		case sendErr = <-done:
+		case <-time.After(60 * time.Second):
+			hx.Fatal("unit slot replay (%s) did not return", path)
+		}
+		cancel()
+		// what the fake received, per connection: marker key, then the business key of the same transaction
+		marker := map[int]int{}
+		got := 0
+		for _, e := range cs.RawMerged() {
+			if len(e.Args) == 0 {
+				continue
+			}
+			k := string(e.Args[0])
+			switch {
+			case e.Name == "set" && checkpoint.IsBisyncMarkerKey(k):
+				i, j := bytes.LastIndexByte(e.Args[0], '{'), bytes.LastIndexByte(e.Args[0], '}')
+				sl, ok := tagSlot[k[i+1:j]]
+				if !ok {
+					hx.Fatal("marker key %q carries no slot tag of the tool", k)
+				}
+				marker[e.Conn] = sl
+			case (e.Name == "set" || e.Name == "restore") && !checkpoint.IsBisyncMarkerKey(k) && e.InMulti:
+				if sl, ok := marker[e.Conn]; ok {
+					out = append(out, unitObs{key: append([]byte{}, e.Args[0]...), slot: sl})
+					delete(marker, e.Conn)
+					got++
+				}
+			}
+		}
+		cs.Close()
+		runtime.GC()
+		if os.Getenv("VERIF_DEBUG") != "" {
+			fmt.Fprintf(os.Stderr, "unitSlots %s start=%d part=%d got=%d err=%v\n", path, start, len(part), got, sendErr)
+		}
+		if path != "aof" {
+			// a snapshot is replayed by several workers: everything of this part was sent, or a key is missing
+			sent := map[string]bool{}
+			for _, o := range out {
+				sent[string(o.key)] = true
+			}
+			for _, k := range part {
+				want := k
+				if path == "rdb-striptag" {
+					want = bytes.Replace(bytes.Replace(k, []byte("{"), nil, 1), []byte("}"), nil, 1)
+				}
+				if !sent[string(want)] {
+					// a unit of one key is always routable: the tool bound it to a slot its key does not hash to, or lost it
+					out = append(out, unitObs{key: want, slot: -1})
+				}
+			}
+			break
+		}
+		if got < len(part) {
+			// the run ended at a unit the replay refused: a unit of one key is always routable
+			out = append(out, unitObs{key: part[got], slot: -1})
+			got++
+		}
+		start += got
+	}
+	return out
 }
